@@ -105,6 +105,15 @@ class SQLDataStore(datastore.DataStore):
       self._connection.rollback()
       raise e
 
+  def _raise_if_study_missing(self, owner_id: str, study_id: str) -> None:
+    """Children can only be stored under an existing study. Call under lock."""
+    study_name = resources.StudyResource(owner_id, study_id).name
+    eq = sqla.select(self._studies_table)
+    eq = eq.where(self._studies_table.c.study_name == study_name)
+    eq = sqla.exists(eq).select()
+    if not self._connection.execute(eq).fetchone()[0]:
+      raise NotFoundError('Study %s does not exist.' % study_name)
+
   def create_study(self, study: study_pb2.Study) -> resources.StudyResource:
     study_resource = resources.StudyResource.from_name(study.name)
     owner_name = study_resource.owner_resource.name
@@ -240,6 +249,9 @@ class SQLDataStore(datastore.DataStore):
     )
 
     with self._lock:
+      self._raise_if_study_missing(
+          trial_resource.owner_id, trial_resource.study_id
+      )
       try:
         self._write_or_rollback(query)
       except sqla.exc.IntegrityError as e:
@@ -365,6 +377,7 @@ class SQLDataStore(datastore.DataStore):
     )
 
     with self._lock:
+      self._raise_if_study_missing(resource.owner_id, resource.study_id)
       try:
         self._write_or_rollback(query)
       except sqla.exc.IntegrityError as e:
@@ -515,6 +528,7 @@ class SQLDataStore(datastore.DataStore):
     )
 
     with self._lock:
+      self._raise_if_study_missing(resource.owner_id, resource.study_id)
       try:
         self._write_or_rollback(query)
       except sqla.exc.IntegrityError as e:
